@@ -61,4 +61,38 @@ theorem initial_counterexample_empty_part_eval :
       show (0 : Rat) < 1 by grind, List.foldlM, List.forM, pathTags, pathTagsEnd, chanEmpty]
 
 
+/-- `TablePT({'A': [(0, 1), (1, 3, 'jump')]})` -/
+def jumpWitness : PT :=
+  .table none [("A", [⟨.lit 0, .lit 1, .hold⟩, ⟨.lit 1, .lit 3, .jump⟩])] [] []
+
+/-- `TablePT({'A': [(0, 1), (1, 3, 'hold')]})` -/
+def holdWitness : PT :=
+  .table none [("A", [⟨.lit 0, .lit 1, .hold⟩, ⟨.lit 1, .lit 3, .hold⟩])] [] []
+
+theorem initial_counterexample_jump_eval :
+    initialOf jumpWitness (.dict []) "A" = .ok 1 ∧
+    ∃ P, denote jumpWitness (.dict []) [] [("A", some "A")] = .ok P ∧
+      plEnd .first (pulseVal P "A") = some 3 ∧
+      pathTags .first jumpWitness (.dict []) [] [("A", some "A")] "A" = .ok [Tag.tableStart] := by
+  refine ⟨?_, ?_⟩
+  · simp [initialOf, endOf, jumpWitness, Scope.eval, Expr.eval, List.lookup, keyOf]
+  · simp [jumpWitness, denote, validateCons, tableInstantiate, instEntries, Scope.eval, Expr.eval, List.lookup,
+      chanLookup, hasDup, atomicMeas, getMeas, lastEntry?, tablePL, sortedTimes, lastT, entriesToPL,
+      pulseVal, plEnd, pure, Except.pure, bind, Except.bind, List.foldlM, List.forM, pathTags, tableTags, keyOf,
+      show ¬ ((0:Rat) > 0) by grind, show ¬ ((1:Rat) < 1) by grind, show (0:Rat) < 1 by grind,
+      show (0:Rat) ≤ 1 by grind, show ¬ ((1:Rat) = 0) by grind, show ((1:Rat) == 3) = false by decide]
+
+theorem final_table_hold_specified_eval :
+    finalOf holdWitness (.dict []) "A" = .ok 3 ∧
+    ∃ P, denote holdWitness (.dict []) [] [("A", some "A")] = .ok P ∧
+      plEnd .last (pulseVal P "A") = some 1 ∧
+      pathTags .last holdWitness (.dict []) [] [("A", some "A")] "A" = .ok [Tag.tableEnd] := by
+  refine ⟨?_, ?_⟩
+  · simp [finalOf, endOf, holdWitness, Scope.eval, Expr.eval, List.lookup, keyOf]
+  · simp [holdWitness, denote, validateCons, tableInstantiate, instEntries, Scope.eval, Expr.eval, List.lookup,
+      chanLookup, hasDup, atomicMeas, getMeas, lastEntry?, tablePL, sortedTimes, lastT, entriesToPL,
+      pulseVal, plEnd, plLast, pure, Except.pure, bind, Except.bind, List.foldlM, List.forM, pathTags, tableTags, keyOf,
+      show ¬ ((0:Rat) > 0) by grind, show ¬ ((1:Rat) < 1) by grind, show (0:Rat) < 1 by grind,
+      show (0:Rat) ≤ 1 by grind, show ¬ ((1:Rat) = 0) by grind]
+
 end QP.C07
